@@ -213,8 +213,22 @@ def deepTree (shape : String) (d : Nat) : Option Expr :=
     release build: between 9 000 and 11 000 levels) -/
 def safeDepth : Nat := 5000
 
+/-- a native stack overflow (`crash`) or a hang is reported as a violation only up to this depth: a factor 10
+    below the observed limit, so that a harmless change of the parser's frame sizes cannot trip it -/
+def crashClaimDepth : Nat := 1000
+
 def handle (key : String) (ins obs : List String) : Verdict :=
   match key, ins, obs with
+  | k, ins', ["hang"] =>
+    -- the runner's observation for a case that did not return. Returning Ok/Err for every string is part of
+    -- the statement; printing/round trip only for parser-safe trees; depth only up to `crashClaimDepth`.
+    let inQuantifier :=
+      if k == "C14.rtu" then false
+      else if k == "C14.rt" then (ins'.head?.bind unsexp).any safeNames
+      else if k == "C14.deep" then (ins'.getD 1 "").toNat?.any (· ≤ crashClaimDepth)
+      else true
+    { agree := false, model := "returns", nontrivial := false, tags := ["hang", k],
+      fail := if inQuantifier then some "did-not-return" else none }
   | "C14.tok", [x], o | "C14.chr", [x], o | "C14.rnd", [x], o =>
     match dec x with
     | none => Verdict.bad "encoding"
@@ -236,24 +250,32 @@ def handle (key : String) (ins obs : List String) : Verdict :=
     | none => Verdict.bad "args"
     | some d =>
       let tree := deepTree shape d
-      let input : Option (List Char) := match tree with | some e => some (display e) | none => deepString shape d
-      match input with
-      | none => Verdict.bad "shape"
-      | some cs =>
-        let observed := " ".intercalate o
-        if observed == "crash" then
-          { agree := true, model := "-",
-            fail := if d ≤ safeDepth then some s!"native-stack-exhausted-at-depth-{d}" else none,
-            nontrivial := true, tags := ["deep", shape, "crash"] }
-        else if enc cs != text then
-          -- for tree shapes this is the printed form: `Display` disagrees with the model's `display`
-          { agree := false, model := "printed/constructed text differs", nontrivial := true, tags := ["deep", shape],
-            fail := if tree.isSome then some "printed-form-differs" else none }
-        else
+      let observed := " ".intercalate o
+      if observed == "crash" then
+        { agree := true, model := "-",
+          fail := if d ≤ crashClaimDepth then some s!"native-stack-exhausted-at-depth-{d}" else none,
+          nontrivial := true, tags := ["deep", shape, "crash", if d ≤ safeDepth then "withinSafeDepth" else "beyond"] }
+      else match tree with
+      | some e =>
+        -- tree shapes: the OBSERVED printed text decides (its exact spelling is agreement only)
+        match dec text with
+        | none => Verdict.bad "encoding"
+        | some ps =>
+          let shown := display e
+          let model := showOutcome (parse shown)
+          let fail := if text == "panic" || observed == "panic" then some "never-panics"
+            else if reference ps != some e then some "printed-form-is-not-a-grammar-string-for-the-tree"
+            else if observed != "ok " ++ sexp e then some s!"round-trip:depth-{d}:observed={observed.take 60}"
+            else none
+          { agree := enc shown == text && model == observed, model := (model.take 200).toString, fail,
+            nontrivial := true, tags := ["deep", shape, s!"depth{d}", o.headD "?"] }
+      | none =>
+        match deepString shape d with
+        | none => Verdict.bad "shape"
+        | some cs =>
+          if enc cs != text then Verdict.bad "harness and driver build different texts for this shape" else
           let model := showOutcome (parse cs)
-          let want := match tree with
-            | some e => "ok " ++ sexp e                 -- round trip
-            | none => showRef (reference cs)            -- grammar
+          let want := showRef (reference cs)
           let fail := if observed == "panic" then some "never-panics"
             else if observed == want then none
             else some s!"depth-{d}:expected={want.take 60}:observed={observed.take 60}"
@@ -315,10 +337,13 @@ def handle (key : String) (ins obs : List String) : Verdict :=
       let shown := display e
       let model := enc shown ++ " " ++ showOutcome (parse shown)
       let claimed := key == "C14.rt"
+      if claimed && !safeNames e then Verdict.bad "harness: unsafe name in the safe stream" else
       let fail :=
-        if printed == "panic" || observed == "panic" then some "never-panics"
-        else if !claimed then none            -- no claim for names that are not parser-safe
-        else if !safeNames e then some "harness: unsafe name in the safe stream"
+        -- parsing any string must return (also the printed form of a tree over unsafe names) …
+        if observed == "panic" then some "never-panics"
+        -- … everything about printing is claimed for parser-safe trees only
+        else if !claimed then none
+        else if printed == "panic" then some "never-panics(Display)"
         else match dec printed with
           | none => some "encoding"
           | some ps =>
